@@ -41,8 +41,13 @@ def gen_content(rng, depth=0, maxdepth=5, objects=True):
         return {'b': rng.random() < 0.5}
     if r < 0.58:
         return {'n': None}
-    if r < 0.78:
+    if r < 0.74:
         return {'l': [gen_content(rng, depth + 1, maxdepth, objects) for _ in range(rng.randint(0, 4))]}
+    if r < 0.78:
+        # ONE list/dict object that occurs several times in the tree (a separator kept in a variable, [[row]] * 3)
+        inner = rng.choice([{'l': [gen_content(rng, depth + 2, maxdepth, objects) for _ in range(rng.randint(1, 3))]},
+                            {'d': [[f'k{i}', gen_content(rng, depth + 2, maxdepth, objects)] for i in range(rng.randint(1, 2))]}])
+        return {'shared': inner, 'times': rng.randint(2, 3)}
     if r < 0.85:
         n = rng.randint(0, 3)
         return {'d': [[f'k{i}', gen_content(rng, depth + 1, maxdepth, objects)] for i in range(n)]}
@@ -59,6 +64,8 @@ def gen_content(rng, depth=0, maxdepth=5, objects=True):
 
 
 def count_leaves(c):
+    if 'shared' in c:
+        return c['times'] * count_leaves(c['shared'])
     if 'l' in c:
         return sum(count_leaves(x) for x in c['l'])
     if 'd' in c:
@@ -126,6 +133,9 @@ def to_py(c):
         return c['b']
     if 'n' in c:
         return None
+    if 'shared' in c:
+        obj = to_py(c['shared'])
+        return [obj] * c['times']          # the very same object at every position
     if 'l' in c:
         return [to_py(x) for x in c['l']]
     if 'd' in c:
